@@ -738,9 +738,10 @@ pub const HAND_WRITTEN: &[&str] = &[
 
 pub fn run(o: &Opts) {
     let mut st = Stats::new();
+    // shards of about 400 kB: coqc needs about 0.5 GB and 6 s for each (16 run in parallel)
     let mut sh = Shards::new(
         &o.out,
-        o.shards,
+        if o.thorough { o.shards * 8 } else { o.shards },
         "From Coq Require Import List NArith ZArith Uint63.\nFrom Okv Require Import Model.Lit Model.Syntax Run.Unpack Run.Classify_C19.\nImport ListNotations.\nOpen Scope N_scope.",
     );
     st.rule = "a case is a syntax tree (built directly, or returned by the real parser for a text) with the text the real printer wrote for it; non-trivial = some posting has account width + alignment within 6 columns of the branch of get_column that decides it (48 for amounts, 50 + trailing for balance-only), or a measured string (account, printed balance) is not printable ASCII; distinct by tree (display leg) or by input text (format leg)".to_string();
